@@ -17,7 +17,9 @@ ArgV(n, l) == [name |-> n, val |-> l]
 \* ---- alphabets (substituted in the .cfg files) --------------------------------
 NoDirs == {<<>>}
 DirsLit == {<<>>, <<Dir("skip", Lit("bool", TRUE))>>, <<Dir("include", Lit("bool", FALSE))>>,
-            <<Dir("skip", Lit("bool", FALSE)), Dir("include", Lit("bool", TRUE))>>}
+            <<Dir("skip", Lit("bool", FALSE)), Dir("include", Lit("bool", TRUE))>>,
+            \* both directives on one selection, the LATER one excluding it
+            <<Dir("include", Lit("bool", TRUE)), Dir("skip", Lit("bool", TRUE))>>, <<Dir("skip", Lit("bool", FALSE)), Dir("include", Lit("bool", FALSE))>>}
 DirsVar == {<<>>, <<Dir("skip", Lit("var", "v"))>>, <<Dir("include", Lit("var", "w"))>>}
 DirsBoth == DirsLit \cup DirsVar
 DirsVarOnly == {<<>>, <<Dir("skip", Lit("var", "v"))>>}
